@@ -19,7 +19,7 @@ ENGINES = {
     "C18": ("eng_pratt", "proof"),
     "C01": ("eng_core", "other"),
     "C02": ("eng_core", "other"),
-    "C03": ("eng_core", "other"),
+    "C03": ("eng_core", "proof"),
     "C04": ("eng_core", "other"),
     "C05": ("eng_core", "other"),
     "C06": ("eng_core", "other"),
